@@ -347,6 +347,7 @@ def c17(tier, seed):
         {'line': "alias srt='sort|uniq'; alias te='true|./pargs'; printf 'b\\na\\nb\\n' | srt; te hi", 'files': P, 'expect_stdout': 'a\nb\n' + _argv(['hi']), 'area': 'alias:value-without-a-blank-is-still-a-command-line'},
         {'line': "alias ll='./pargs a'; alias LL='./pargs b'; alias | sort; ll; LL", 'files': P, 'expect_stdout': "alias LL='./pargs b'\nalias ll='./pargs a'\n" + _argv(['a']) + _argv(['b']), 'area': 'alias:names-differing-in-case'},
         {'line': "alias n=; unalias n; echo rc=$?; alias", 'files': P, 'expect_stdout': 'rc=0\n', 'area': 'alias:unalias-empty-value'},
+        {'line': "alias e=''; alias e; e ./pargs hi; alias | grep -c 'e='; true | e ./pargs p", 'files': P, 'expect_stdout': "alias e=''\n" + _argv(['hi']) + '1\n' + _argv(['p']), 'area': 'alias:empty-value'},
         {'line': "alias -x='./pargs hi'; alias -x; alias x-y='./pargs yo'; alias x-y; alias .z='./pargs zz'; alias .z", 'files': P,
          'expect_stdout': "alias -x='./pargs hi'\nalias x-y='./pargs yo'\nalias .z='./pargs zz'\n", 'area': 'alias:name-charset:list-one'},
         {'line': "alias g-s='./pargs \"x y\"'; g-s", 'files': P, 'expect_stdout': _argv(['x y']), 'area': 'alias:name-charset:inner-quotes'},
